@@ -35,6 +35,7 @@ package lnwallet
 //@   loop * havoc
 //@   site store TxOut.Value nth 0: assert entry(ourBalance) >= localDust && (value == entry(ourBalance) || value == 0)
 //@   site store TxOut.Value nth 1: assert entry(theirBalance) >= remoteDust && (value == entry(theirBalance) || value == 0)
+//@   loop 1 entry (localOutputIdx.isSome <==> entry(ourBalance) >= localDust) && (remoteOutputIdx.isSome <==> entry(theirBalance) >= remoteDust)
 //@
 //@ func (lc *LightningChannel) CreateCloseProposal
 //@   props C17
@@ -91,7 +92,7 @@ package lnwallet
 //@   site store RevokeAndAck.NextRevocationKey: assert value == ret(ComputeCommitmentPoint)
 //@
 //@ func (lc *LightningChannel) ReceiveRevocation
-//@   props C06 C02
+//@   props C06 C02 C01
 //@   loop * havoc
 //@   site call NewHash: assert arg(0) == sliceof(revMsg.Revocation)
 //@   site call AddNextEntry: assert arg(1) == retn(NewHash, 0) && retn(NewHash, 1) == nil &&
@@ -104,7 +105,11 @@ package lnwallet
 //@   site call AdvanceCommitChainTail: assert ret(AddNextEntry) == nil && ret(IsEqual) && arg(1) == ret(NewFwdPkg) &&
 //@        arg(0) == lc.channelState && retn(findOutputIndexesFromRemote, 2) == nil
 //@   site call advanceTail: assert ret(AdvanceCommitChainTail) == nil
-//@   site call compactLogs: assert ret(AdvanceCommitChainTail) == nil
+//@   site call compactLogs: assert ret(AdvanceCommitChainTail) == nil && arg(0) == lc.updateLogs.Local && arg(1) == lc.updateLogs.Remote &&
+//@        arg(2) == localChainTail && arg(3) == remoteChainTail
+//@   site call tail nth 2: assert arg(0) == lc.commitChains.Remote
+//@   site call tail nth 3: assert arg(0) == lc.commitChains.Local
+//@   site call ShortChanID: assert remoteChainTail == wrap(ret(tail, 2).height + 1, 64) && localChainTail == ret(tail, 3).height
 //@   site return nil: assert ret(AdvanceCommitChainTail) == nil && result0 == ret(NewFwdPkg) && ret(AddNextEntry) == nil && ret(IsEqual)
 //@
 //@ func (lc *LightningChannel) SignNextCommitment
@@ -578,3 +583,20 @@ package lnwallet
 //@   loop * havoc
 //@   site store VerifyJob.HtlcIndex: assert isLocalInitiator == old(chanState.IsInitiator) && chanType == old(chanState.ChanType) &&
 //@        localChanCfg.CsvDelay == old(chanState.LocalChanCfg.CsvDelay) && localChanCfg.DustLimit == old(chanState.LocalChanCfg.DustLimit)
+//@
+//@ // ---- log compaction evicts an update (and its parent add) only once BOTH commitment chains have
+//@ // ---- irrevocably moved past the height that removed it
+//@ func compactLogs$1
+//@   props C01
+//@   loop * havoc
+//@   site call removeUpdate: assert arg(0) == logA && arg(1) == htlc.LogIndex && htlc.EntryType != Add &&
+//@        htlc.removeCommitHeights.Remote != 0 && htlc.removeCommitHeights.Local != 0 &&
+//@        remoteChainTail >= htlc.removeCommitHeights.Remote && localChainTail >= htlc.removeCommitHeights.Local
+//@   site call removeHtlc: assert arg(0) == logB && arg(1) == htlc.ParentIndex && htlc.EntryType != Add && htlc.EntryType != FeeUpdate &&
+//@        rmvHeights.Remote != 0 && rmvHeights.Local != 0 &&
+//@        remoteChainTail >= rmvHeights.Remote && localChainTail >= rmvHeights.Local
+//@
+//@ func compactLogs
+//@   props C01
+//@   site call compactLogs$1 nth 0: assert arg(0) == ourLog && arg(1) == theirLog
+//@   site call compactLogs$1 nth 1: assert arg(0) == theirLog && arg(1) == ourLog
